@@ -141,7 +141,7 @@ pub struct Delivery {
     pub seen_at_request: usize,
 }
 
-pub const GET_MENU: [&str; 4] = ["present", "404_once", "500_once", "never"];
+pub const GET_MENU: [&str; 5] = ["present", "404_once", "500_once", "truncated_once", "never"];
 pub const LIST_MENU: [&str; 5] = ["present", "empty_once", "500_once", "garbled_once", "never"];
 pub const DISCOVERY_MENU: [&str; 3] = ["normal", "500", "garbled_or_404"];
 
@@ -377,6 +377,20 @@ impl Env {
                     2 => {
                         self.failures_for_current += 1;
                         Response::xml(500, error_xml("InternalError"))
+                    }
+                    3 => {
+                        // the right object with the right headers, but the transfer dies half-way
+                        // (well past the magic bytes): a failed attempt, never a delivery
+                        self.failures_for_current += 1;
+                        // (a close-delimited body that is cut short is indistinguishable from a
+                        // shorter object, so under that framing the fault is a 500 instead)
+                        if matches!(crate::s3sim::FRAMINGS[self.root.framing % crate::s3sim::FRAMINGS.len()], crate::s3sim::Framing::Close) {
+                            return Response::xml(500, error_xml("InternalError"));
+                        }
+                        let mut r = self.serve_get(nv, ns);
+                        let n = r.body.len();
+                        r.truncate_at = Some((n / 2).max(7).min(n.saturating_sub(1)));
+                        r
                     }
                     _ => {
                         self.never = true;
@@ -976,7 +990,7 @@ pub fn run(ctx: &'static Ctx) -> (&'static str, Value, Vec<&'static str>) {
     }
     let all = roots(ctx.tier.thorough());
     let mut cov = stats.coverage(
-        "roots = start (volume in {1,500,997,998,999} x sequence in {1,2,30,53,54,55}) crossed with: fault exploration, next-volume listing showing 2/3 chunks, stop signal before polling / while serving post-discovery request #k (k = 0..9), consumer dropped after k deliveries (0..5), upload times around now, long horizon, discovery faults. Under each root the E1 explorer enumerates ALL executions with <= bound deviations, where every post-discovery request is a choice point: GET menu {present, 404 once, 500 once, never}, next-volume LIST menu {present, empty once, 500 once, garbled once, never}. Each execution runs the real poll_chunks to completion on a paused tokio clock. states = complete executions, transitions = environment choice points answered. non-trivial = >= 1 deviation or a volume boundary crossed; distinct by (root, choice list)",
+        "roots = start (volume in {1,500,997,998,999} x sequence in {1,2,30,53,54,55}) crossed with: fault exploration, next-volume listing showing 2/3 chunks, stop signal before polling / while serving post-discovery request #k (k = 0..9), consumer dropped after k deliveries (0..5), upload times around now, long horizon, discovery faults. Under each root the E1 explorer enumerates ALL executions with <= bound deviations, where every post-discovery request is a choice point: GET menu {present, 404 once, 500 once, transfer cut half-way once, never}, next-volume LIST menu {present, empty once, 500 once, garbled once, never}. Each execution runs the real poll_chunks to completion on a paused tokio clock. states = complete executions, transitions = environment choice points answered. non-trivial = >= 1 deviation or a volume boundary crossed; distinct by (root, choice list)",
         true,
         json!({"roots": all.len(), "deliveries_horizon": 6, "request_horizon": REQUEST_HORIZON, "max_deviation_bound": all.iter().map(|r| r.bound).max(), "workers": n}),
     );
